@@ -24,13 +24,12 @@ func readRules(input io.Reader) ([]rule, error) {
 	currentRuleIndex := len(defaultExclusions) - 1
 
 	for scanner.Scan() {
-		pattern := scanner.Text()
-		// Ignore blank lines
+		// Trim spaces
+		pattern := strings.TrimSpace(scanner.Text())
+		// Ignore blank lines, including those made only of spaces
 		if len(pattern) == 0 {
 			continue
 		}
-		// Trim spaces
-		pattern = strings.TrimSpace(pattern)
 		// Ignore comments
 		if pattern[0] == '#' {
 			continue
@@ -41,6 +40,10 @@ func readRules(input io.Reader) ([]rule, error) {
 		if pattern[0] == '!' {
 			rule.negated = true
 			pattern = pattern[1:]
+			// A lone "!" negates nothing
+			if len(pattern) == 0 {
+				continue
+			}
 			// Mark all previous rules as having negations after it
 			for i := currentRuleIndex; i >= 0; i-- {
 				if rules[i].negationsAfter {
